@@ -1,7 +1,7 @@
 # Builds the simulator from /repo's CURRENT working tree (never the in-tree
 # objects or an installed library).  Variants: asan, tsan, plain.
 REPO ?= /repo
-B := build
+B ?= build
 CC := clang
 CXX := clang++
 VARIANTS := asan tsan plain
